@@ -3,7 +3,7 @@
 // C02 — schedule / async / AsyncTask. Shared between the halves.
 enum { C02_SCHEDULE = 0, C02_ASYNC = 1, C02_ASYNCTASK = 2 };
 enum { C02_T_INT = 0, C02_T_STRING = 1, C02_T_VECTOR = 2, C02_T_TRACKED = 3 };
-enum { C02_A_FINISHED = 0, C02_A_VALID, C02_A_WAIT, C02_A_GET, C02_A_IDLE, C02_A_NACT };
+enum { C02_A_FINISHED = 0, C02_A_VALID, C02_A_WAIT, C02_A_GET, C02_A_IDLE, C02_A_EXPECT_RUN, C02_A_NACT };  // EXPECT_RUN: the caller does nothing (fair phase) until the function has run
 struct C02Item
 {
   int api;
@@ -47,6 +47,7 @@ void c02_tracked_dtor(const void *p);
 void c02_tracked_assign(const void *p);
 void c02_drain();
 void c02_wait_one(int id);                   // fair phase: wait (doing nothing) until function id has run                            // fair phase: wait (without doing anything) until every task has run
+void c02_wait_item(int id);                  // fair phase: wait (doing nothing) until the function of item id has run
 void c02_wait_for(int id);   // spins until function id has completed (body of a long-lived function)
 void c02_run();
 }
